@@ -99,7 +99,13 @@ func runC20(c *core.Ctx) {
 			continue
 		}
 		body := ip[0]
-		shapeOK := len(calls(body)) == n && len(nonLocalStores(body)) == 0 && len(body.Events(ir.KBranch, ir.KGo, ir.KDefer, ir.KSend, ir.KRecv, ir.KSelect)) == 0
+		nBranch := 0
+		for _, b := range body.Events(ir.KBranch) {
+			if b.Atom == nil || !b.Atom.IsConst() {
+				nBranch++ // a test the engine decided from constants (a hook that is never installed) is no branch
+			}
+		}
+		shapeOK := len(calls(body)) == n && len(nonLocalStores(body)) == 0 && nBranch == 0 && len(body.Events(ir.KGo, ir.KDefer, ir.KSend, ir.KRecv, ir.KSelect)) == 0
 		c.Check(shapeOK, "closure-shape", name, inner.Pos(), fmt.Sprintf("1 path, %d calls, no store/branch", n),
 			"closure performs %d calls (want %d), %d non-local stores, or has branches/channel operations", len(calls(body)), n, len(nonLocalStores(body)))
 		// composition term
